@@ -24,6 +24,8 @@ Reading guide
 import PsdVerif.Lemmas.Lenient4
 import PsdVerif.Lemmas.LenientSamples
 import PsdVerif.Props.C01
+import PsdVerif.Generated.WriterTies
+import PsdVerif.Model.LegacyName
 
 namespace PsdVerif.C02
 open PsdVerif PsdVerif.Codec PsdVerif.Psd
@@ -52,6 +54,43 @@ theorem tagged_block_encodable {v pad : Nat} {d : B} {p : Nat} {t : TaggedBlock}
 theorem tagged_blocks_encodable {v pad : Nat} {e : Option Nat} {d : B} {p : Nat} {ts : List TaggedBlock} {p' : Nat}
     (hd : taggedBlocksDec v pad e d p = .ok (ts, p')) : ∀ t ∈ ts, t.Fits v :=
   taggedBlocksWF_fits (taggedBlocksDec_ok hd)
+
+/-- **Reader and writer agree on the width of a tagged block's length field.** The model has one function
+`tbLenW version key` for both directions and ignores the signature, as `TaggedBlock._length_format(key, version)`
+does. That the real `TaggedBlock.read` and the real `TaggedBlock.write` both use exactly this width is observed on the
+live class on every run, per direction, for every accepted signature × every `Tag` value (and an unknown key) × both
+versions (`Generated/WriterTies.lean`, harness/extract_c02.py): a reader and a writer that choose differently — by the
+signature on one side only, say — break this theorem (and `resave_stable_partial` would be about another program). -/
+theorem tb_width_tied :
+    (∀ r ∈ Generated.WriterTies.tbWidths, r.2.2.2.1 = tbLenW r.1 r.2.2.1 ∧ r.2.2.2.2 = tbLenW r.1 r.2.2.1) ∧
+    (∀ v ∈ [1, 2], ∀ s ∈ G.blockSignatures, ∀ k ∈ G.bigKeys,
+      (Generated.WriterTies.tbWidths.any fun r => r.1 == v && r.2.1 == s && r.2.2.1 == k) = true) ∧
+    (∀ v ∈ [1, 2], ∀ s ∈ G.blockSignatures,
+      (Generated.WriterTies.tbWidths.any fun r => r.1 == v && r.2.1 == s && !(G.bigKeys.contains r.2.2.1)) = true) := by
+  decide +kernel
+
+/-- **The legacy-name fallback is what the model says.** `LayerRecord._legacy_name` observed on the live class for every
+encoded length 0‥300, with and without a `luni` block, is `legacyName`: the name itself, except `?` when a `luni` block
+is present and the name is longer than 255 bytes (the largest Pascal string). -/
+theorem legacy_name_tied :
+    (∀ r ∈ Generated.WriterTies.legacyName, r.2.2 = if legacyKeeps r.1 r.2.1 then 0 else 1) ∧
+    (∀ b ∈ [false, true], ∀ n ∈ [0, 1, 31, 32, 254, 255, 256, 300],
+      (Generated.WriterTies.legacyName.any fun r => r.1 == b && r.2.1 == n) = true) := by
+  decide +kernel
+
+/-- … and it never fires on a name the reader returned: `LayerRecord.encT` writing `r.name` itself is
+`_write_extra` writing `_legacy_name(encoding)`, for every record that came out of `LayerRecord.dec`,
+whether or not it carries a `luni` block. (The boundary is 255 exactly: `legacyName true` of 256 bytes is `?`.) -/
+theorem legacy_name_identity_on_read {v : Nat} {d : B} {p : Nat} {r : LayerRecord} {p' : Nat}
+    (hd : LayerRecord.dec v d p = .ok (r, p')) (hasLuni : Bool) : legacyName hasLuni r.name = r.name := by
+  have h := (LayerRecord.dec_ok hd).name
+  have : legacyKeeps hasLuni r.name.length = true := by
+    cases hasLuni <;> simp [legacyKeeps]; omega
+  simp [legacyName, this]
+
+example : legacyName true (List.replicate 255 0x61) = List.replicate 255 0x61 := by decide +kernel
+example : legacyName true (List.replicate 256 0x61) = [0x3F] := by decide +kernel
+example : legacyName false (List.replicate 256 0x61) = List.replicate 256 0x61 := by decide +kernel
 
 /-- the mask block needs no hypothesis at all: its re-encoded body is at most 60 bytes -/
 theorem mask_data_encodable {d : B} {p : Nat} {m : Option MaskData} {p' : Nat} (hd : maskDec d p = .ok (m, p')) :
